@@ -1262,7 +1262,11 @@ func mustFollow(from ssa.Instruction, pred func(ssa.Instruction) bool, until fun
 // Guards (K1)
 
 type Guard struct {
-	Name  string
+	Name string
+	// Key: what the guard matches, in text (the pattern it was built from). Summaries of callees are
+	// memoised per (callee, arguments, guard): two guards that share a name but not a pattern must not share
+	// an entry, so the constructors record the pattern here and the memo key includes it.
+	Key   string
 	Match func(w *World, f *ssa.Function, a Atom) bool
 	// Split: the guard also holds where every one of these holds (an equality established by two
 	// opposite inequalities, possibly at different places on the path).
@@ -1272,7 +1276,7 @@ type Guard struct {
 // guardRe builds a guard from a regexp over atom strings.
 func guardRe(name, re string) Guard {
 	rx := regexp.MustCompile(re)
-	return Guard{Name: name, Match: func(w *World, f *ssa.Function, a Atom) bool {
+	return Guard{Name: name, Key: "re:" + re, Match: func(w *World, f *ssa.Function, a Atom) bool {
 		if rx.MatchString(w.atomStr(a)) {
 			return true
 		}
@@ -1291,7 +1295,7 @@ func guardRe(name, re string) Guard {
 
 // guardCallOK: "call to spec succeeded" — nil error result, or true bool result.
 func guardCallOK(name string, specs ...string) Guard {
-	return Guard{Name: name, Match: func(w *World, f *ssa.Function, a Atom) bool {
+	return Guard{Name: name, Key: "callok:" + strings.Join(specs, ","), Match: func(w *World, f *ssa.Function, a Atom) bool {
 		if a.Kind != "nil" && a.Kind != "true" {
 			return false
 		}
@@ -1662,7 +1666,7 @@ func (ge *guardEnv) ensures(h *ssa.Function, g Guard, depth int) bool {
 }
 
 func (ge *guardEnv) ensuresKeyed(h *ssa.Function, g Guard, depth int, ctx string) bool {
-	key := funcKey(h) + "|" + g.Name + "|" + ctx
+	key := funcKey(h) + "|" + g.Name + "|" + g.Key + "|" + ctx
 	switch ge.memo[key] {
 	case 1:
 		return true
